@@ -517,6 +517,101 @@ fn check_helpers(n: usize, p: &mut Partial) {
             }
         }
     }
+    // copy_into and the per-element estimator helpers: every element updated exactly once by the
+    // element-wise formula; a special value at index i changes element i only
+    {
+        let mut dst = col(&y);
+        m.copy_into(&col(&x), &mut dst);
+        p.evaluations += 1;
+        if !mc_core::slice_bits_eq(&uncol(&dst), &x) {
+            viol(format!("copy_into n={n}"), "destination differs from the source".into(), p);
+        }
+        let specials = [f64::NAN, f64::INFINITY, 0.0, -0.0, 5e-324, 1e300, -1e300];
+        let probe_at = |i: Option<usize>, sv: f64, base_v: &Vec<f64>| -> Vec<f64> {
+            let mut v = base_v.clone();
+            if let Some(i) = i {
+                v[i] = sv;
+            }
+            v
+        };
+        let mut positions: Vec<(Option<usize>, f64)> = vec![(None, 0.0)];
+        for i in 0..n {
+            for sv in specials {
+                positions.push((Some(i), sv));
+            }
+        }
+        let var_a: Vec<f64> = x.iter().map(|t| t * t + 0.3).collect();
+        let var_b: Vec<f64> = y.iter().map(|t| t * t + 0.7).collect();
+        for (i, sv) in positions {
+            // running mean / variance
+            let val = probe_at(i, sv, &x);
+            let mut mean = col(&y);
+            let mut var = col(&var_a);
+            m.array_update_variance(&mut mean, &mut var, &col(&val), 0.25);
+            p.evaluations += 1;
+            let (gm, gv) = (uncol(&mean), uncol(&var));
+            for j in 0..n {
+                let diff = val[j] - y[j];
+                let (em, ev) = (y[j] + diff * 0.25, var_a[j] + diff * diff);
+                if !(mc_core::bits_eq(gm[j], em) && mc_core::bits_eq(gv[j], ev)) {
+                    viol(format!("update_variance n={n} probe={i:?}"), format!("element {j}: mean {} var {} expected {em} {ev}", gm[j], gv[j]), p);
+                    break;
+                }
+            }
+            // draw-variance -> scale, draw/grad variance -> scale, gradient -> scale
+            let dv = probe_at(i, sv, &var_a);
+            let gvv = probe_at(i.map(|i| (i + n / 2) % n.max(1)), sv, &var_b);
+            for fill in [None, Some(2.0)] {
+                let clamp = (1e-3, 1e3);
+                let prev_std: Vec<f64> = (0..n).map(|j| 0.5 + j as f64).collect();
+                let prev_inv: Vec<f64> = prev_std.iter().map(|t| 1.0 / t).collect();
+                let (mut is, mut st) = (col(&prev_inv), col(&prev_std));
+                m.array_update_var_inv_std_draw(&mut is, &mut st, &col(&dv), 0.5, fill, clamp);
+                let (mut is2, mut st2) = (col(&prev_inv), col(&prev_std));
+                m.array_update_var_inv_std_draw_grad(&mut is2, &mut st2, &col(&dv), &col(&gvv), fill, clamp);
+                p.evaluations += 2;
+                let (gis, gst, gis2, gst2) = (uncol(&is), uncol(&st), uncol(&is2), uncol(&st2));
+                for j in 0..n {
+                    let one = |val: f64, invalid: bool| -> (f64, f64) {
+                        if invalid {
+                            match fill {
+                                Some(f) => (f.sqrt(), f.recip().sqrt()),
+                                None => (prev_std[j], prev_inv[j]),
+                            }
+                        } else {
+                            let v = val.clamp(clamp.0, clamp.1);
+                            (v.sqrt(), v.recip().sqrt())
+                        }
+                    };
+                    let a = dv[j] * 0.5;
+                    let (es, ei) = one(a, !a.is_finite() || a == 0.0);
+                    let b = (dv[j] / gvv[j]).sqrt();
+                    let (es2, ei2) = one(b, !b.is_finite() || b == 0.0);
+                    if !(mc_core::bits_eq(gst[j], es) && mc_core::bits_eq(gis[j], ei)) {
+                        viol(format!("update_var_inv_std_draw n={n} probe={i:?} fill={fill:?}"), format!("element {j}: std {} inv {} expected {es} {ei}", gst[j], gis[j]), p);
+                        break;
+                    }
+                    if !(mc_core::bits_eq(gst2[j], es2) && mc_core::bits_eq(gis2[j], ei2)) {
+                        viol(format!("update_var_inv_std_draw_grad n={n} probe={i:?} fill={fill:?}"), format!("element {j}: std {} inv {} expected {es2} {ei2}", gst2[j], gis2[j]), p);
+                        break;
+                    }
+                }
+            }
+            let gr = probe_at(i, sv, &y);
+            let (mut is3, mut st3) = (col(&vec![9.0; n]), col(&vec![9.0; n]));
+            m.array_update_var_inv_std_grad(&mut is3, &mut st3, &col(&gr), 2.0, (1e-3, 1e3));
+            p.evaluations += 1;
+            let (gis3, gst3) = (uncol(&is3), uncol(&st3));
+            for j in 0..n {
+                let v = gr[j].abs().clamp(1e-3, 1e3).recip();
+                let v = if v.is_finite() { v } else { 2.0 };
+                if !(mc_core::bits_eq(gst3[j], v.sqrt()) && mc_core::bits_eq(gis3[j], v.recip().sqrt())) {
+                    viol(format!("update_var_inv_std_grad n={n} probe={i:?}"), format!("element {j}: std {} inv {} expected {} {}", gst3[j], gis3[j], v.sqrt(), v.recip().sqrt()), p);
+                    break;
+                }
+            }
+        }
+    }
     let mut r = m.new_array();
     m.array_recip(&col(&pos), &mut r);
     let r = uncol(&r);
